@@ -14,7 +14,7 @@ encfix.install()
 FUNCTIONS_ENCODED = ['pgpy.packet.packets.IntegrityProtectedSKEDataV1.decrypt', 'pgpy.packet.packets.IntegrityProtectedSKEDataV1.encrypt',
                      'pgpy.packet.packets.PKESessionKeyV3.decrypt_sk', 'pgpy.packet.packets.SKESessionKeyV4.decrypt_sk',
                      'pgpy.pgp.PGPMessage.decrypt', 'pgpy.pgp.PGPMessage.encrypt', 'pgpy.pgp.PGPMessage.parse', 'pgpy.pgp.PGPKey.decrypt',
-                     'pgpy.packet.packets.MDC.parse']
+                     'pgpy.packet.packets.MDC.parse', 'pgpy.packet.fields.String2Key.derive_key']
 STUBS = ['symmetric cipher -> ideal model: right key returns the plaintext, anything else returns an arbitrary symbolic octet string',
          'SHA-1 (MDC) -> collision-free stand-in on inputs <= 19 octets (input || padding || length); edge function beyond',
          'String2Key.derive_key -> recording stand-in (key = f(passphrase, salt)); RSA decryption -> returns a symbolic octet string m']
@@ -230,6 +230,54 @@ def msg_mutation(pos: int, val: int, r0: int, r1: int) -> bool:
     return bytes(out) == data + bytes(pkt.ct[off + 10 + len(data):])
 
 
+class _Rec:
+    log = []
+
+    def __init__(self, name):
+        import hashlib as _h
+        self.digest_size = _h.new(name).digest_size
+        self.data = b''
+        _Rec.log.append(self)
+
+    def update(self, b):
+        self.data = self.data + bytes(b)
+
+    def digest(self):
+        return inj_digest(self.data, self.digest_size)
+
+
+class _HL:
+    new = staticmethod(lambda name, *a, **k: _Rec(name))
+
+
+K.hashlib = _HL
+
+
+@ob('O4.6', 'a wrong passphrase cannot lead to the right key: the real key derivation feeds the hash different octets for different passphrases '
+            '(so, under a collision-free hash, derives a different key and decryption raises by O4.4)',
+    'two passphrases of 0..2 symbolic characters each (all of Unicode, incl. white space); Salted S2K, symbolic salt', cond_timeout={'q': 280, 't': 900},
+    partitions=[['len(p1) == %d' % a, 'len(p2) == %d' % b] for a in range(3) for b in range(3)])
+def passphrase_separation(p1: str, p2: str, salt: bytes) -> bool:
+    """
+    pre: len(p1) <= 2 and len(p2) <= 2
+    pre: len(salt) == 8
+    post: _
+    """
+    from pgpy.packet.fields import String2Key
+    fed = []
+    for pw in (p1, p2):
+        s = String2Key()
+        s.usage = 254
+        s.encalg = 7
+        s.specifier = 1
+        s.halg = 2
+        s.salt = bytearray(salt)
+        _Rec.log = []
+        encfix.REAL_DERIVE_KEY(s, pw)
+        fed.append([r.data for r in _Rec.log][-1])
+    return (fed[0] != fed[1]) or p1 == p2
+
+
 @ob('O4.reach', 'reachability witnesses (must be REFUTED): the accepting paths of O4.1/O4.2/O4.4 are reachable', 'as the guarded obligations',
     cond_timeout={'q': 200, 't': 200}, expect='refute', partitions=[['k == %d' % i] for i in range(3)])
 def never_accepts(k: int, body: bytes) -> bool:
@@ -291,4 +339,4 @@ SANITY = ['seipd_accept(8, _good_pt(8, b"0123456789"))', 'seipd_accept(8, _good_
           'msg_wrong_passphrase(b"hi", True, False, 0, bytes(16), bytes(32))', 'msg_wrong_passphrase(b"hi", False, True, 7, bytes(16), bytes(32))',
           'msg_wrong_passphrase(b"", False, False, 3, bytes(16), _good_pt(8, b"\\xcb\\x06b\\x00\\x00\\x00\\x00\\x00")[:32])',
           'msg_mutation(0, 1, 7, 8)', 'msg_mutation(0, 9, 7, 8)', 'msg_mutation(18, 0, 7, 8)', 'msg_mutation(19, 0xD3, 7, 8)', 'msg_mutation(38, 0, 7, 8)',
-          'msg_mutation(8, 7, 7, 8)', 'msg_mutation(8, 9, 7, 8)', 'not never_accepts(0, b"a")', 'not never_accepts(1, b"a")', 'not never_accepts(2, b"a")']
+          'msg_mutation(8, 7, 7, 8)', 'msg_mutation(8, 9, 7, 8)', 'passphrase_separation("a", "a ", b"12345678")', 'passphrase_separation("", "\\n", b"12345678")', 'passphrase_separation("x", "x", b"12345678")', 'not never_accepts(0, b"a")', 'not never_accepts(1, b"a")', 'not never_accepts(2, b"a")']
